@@ -15,8 +15,8 @@ import vlib
 
 META = {
     "category": "proof",
-    "text": "Coq theorems (Scrunch/Props_C19.v, closed under the global context) over executable models of scrunch/src/{lib,sigma,psi/mod,psi/wavelet_tree,sa,isa,sampled,binary_search}.rs: for every text, alphabet, valid record division and needle the modelled CompressedDocument (Sigma; backward search over the WaveletTreePsi table incl. its streaming constructor, lookup, lower_bound, upper_bound and constrain; locate through the sampled suffix array; extract through the sampled inverse suffix array; record lookup by rank/select) returns exactly the occurrences, counts, record numbers, record contents, length and record count of a plain scan, as do PsiDocument over the reference arrays and ReferenceDocument; rank/select laws and the trait-default binary searches; SA-IS, RRR/sparse/wavelet/Huffman encodings and serialisation are specified by interface only and compared with the code component-wise (every index, every bit vector, before and after re-parsing) by differential runs of Rust vs extracted model vs a plain scan.",
-    "note": "Partial by construction: suffix sorting (SA-IS), the bit-vector / wavelet-tree / Huffman encodings and the protobuf framing are not proved (interface + correspondence). Trusted: Coq kernel; tools/constants.py; ExtrOcamlBasic extraction + ocaml/scrunch driver; harness c19; std binary_search/partition_point/sort/HashMap as specified. Texts need a valid record division (non-empty text, last record non-empty): both constructors refuse the rest.",
+    "text": "Coq theorems (Scrunch/Props_C19.v, closed under the global context) over executable models of scrunch/src/{lib,sigma,psi/mod,psi/wavelet_tree,sa,isa,sampled,binary_search}.rs: for every text, alphabet, valid record division and needle the modelled CompressedDocument (Sigma; backward search over the WaveletTreePsi table incl. its streaming constructor, lookup, lower_bound, upper_bound and constrain; locate through the sampled suffix array; extract through the sampled inverse suffix array; record lookup by rank/select; lib.rs inverse_and_psi_u32) returns exactly the occurrences, counts, record numbers, record contents, length and record count of a plain scan, as do PsiDocument over the reference arrays and ReferenceDocument; rank/select laws and the trait-default binary searches; the prefix-code wavelet tree (prefix.rs access/rank/select over per-node bit vectors, closed for the fixed-width encoder); SA-IS, the RRR/sparse bit-vector encodings, the Huffman code book and serialisation are specified by interface only and compared with the code component-wise (every index, every bit vector, before and after re-parsing) by differential runs of Rust vs extracted model vs a plain scan.",
+    "note": "Partial by construction: suffix sorting (SA-IS), the RRR / sparse bit-vector encodings, the Huffman code book and the protobuf framing are not proved (interface + correspondence). Trusted: Coq kernel; tools/constants.py; ExtrOcamlBasic extraction + ocaml/scrunch driver; harness c19; std binary_search/partition_point/sort/HashMap as specified. Texts need a valid record division (non-empty text, last record non-empty): both constructors refuse the rest.",
 }
 
 PROPS = "theories/Scrunch/Props_C19.v"
@@ -594,8 +594,11 @@ def run(chk):
         evaluations += len(mo.split(" "))
         if " bad=0" not in " " + io:
             prop_bad.append({"variant": "wavelet_tree:" + kind, "line": wt_lines[j], "what": io[-300:]})
-        elif io.split(" bad=")[0] != mo:
-            corr_bad.append({"section": "wavelet_tree:" + kind, "line": wt_lines[j], "impl": io[:300], "model": mo[:300]})
+        else:
+            halves = mo.split(" || ")
+            for which, mtoks in zip(("list-interface", "prefix-tree-structure"), halves):
+                if io.split(" bad=")[0] != mtoks:
+                    corr_bad.append({"section": "wavelet_tree:" + kind + ":" + which, "line": wt_lines[j], "impl": io[:300], "model": mtoks[:300]})
     # ---------------- suffix sorting
     off += len(wt_lines)
     for j, t in enumerate(sais_meta):
